@@ -11,8 +11,12 @@ func TestMain(m *testing.M) { vt.Main(m) }
 func init() {
 	exprProp.Register()
 	opsProp.Register()
+	lakeProp.Register()
+	fetchProp.Register()
 }
 
 func TestVamExpr(t *testing.T) { exprProp.Check(t) }
 func TestVamOps(t *testing.T)  { opsProp.Check(t) }
+func TestVamLake(t *testing.T) { lakeProp.Check(t) }
+func TestVcacheFetch(t *testing.T) { fetchProp.Check(t) }
 func TestReplay(t *testing.T)  { vt.TestReplay(t) }
